@@ -140,7 +140,6 @@ func verifyCrashJobs(c *core.Ctx, prop, drv, cwd string, jobs []*crashJob) {
 			c.Violation(lastDiff.Sig, fmt.Sprintf("[%s] %s", j.label, what), j.replay)
 			continue
 		}
-		c.Count(fmt.Sprintf("matched_candidate_%d_of_%d", j.matched, len(j.cands)), 1)
 		if !j.noSecond {
 			if df := j.cands[j.matched].CheckDump(prop+":after-second-recovery", o.res[10].Tables, nil, false); df != nil {
 				j.failed = true
